@@ -1,11 +1,13 @@
 //! Checks that do not use the shared replication simulation (C12 component level, C13, C14, C17).
 
 use crate::check::{self, Replay};
+use crate::fam_c13::C13;
 use crate::fam_c17::C17;
 
 pub fn worker(family: &str, prop: &str, seed: u64, start: u64, stride: u64, total: u64) {
     match family {
         "c17" => check::worker::<C17>(prop, seed, start, stride, total),
+        "c13" => check::worker::<C13>(prop, seed, start, stride, total),
         _ => {
             eprintln!("harness error: unknown family {family}");
             std::process::exit(2);
@@ -16,6 +18,7 @@ pub fn worker(family: &str, prop: &str, seed: u64, start: u64, stride: u64, tota
 pub fn replay(r: &Replay) -> i32 {
     match r.family.as_str() {
         "c17" => check::replay::<C17>(r),
+        "c13" => check::replay::<C13>(r),
         _ => {
             eprintln!("harness error: unknown replay family {}", r.family);
             2
@@ -26,6 +29,7 @@ pub fn replay(r: &Replay) -> i32 {
 pub fn check(prop: &str, tier: &str) -> i32 {
     match prop {
         "C17" => check::check::<C17>(prop, tier, "exploration", serde_json::Value::Null),
+        "C13" => check::check::<C13>(prop, tier, "exploration", serde_json::Value::Null),
         _ => {
             eprintln!("harness error: no check for {prop}");
             2
